@@ -67,9 +67,13 @@ impl<T: Clone> CachedRwLock<T> {
     /// write access to it so it can be used as a scratchpad.
     pub(crate) fn write_scratchpad(&mut self) -> LockResult<&mut T> {
         if self.shared.epoch.load(Ordering::Relaxed) != self.epoch {
+            #[cfg(nexosim_verif)]
+            crate::verif::point(62, 0, 0);
             match self.shared.value.lock() {
                 LockResult::Ok(shared) => {
                     self.value = shared.clone();
+                    #[cfg(nexosim_verif)]
+                    crate::verif::point(63, 0, 0);
                     self.epoch = self.shared.epoch.load(Ordering::Relaxed)
                 }
                 LockResult::Err(_) => return LockResult::Err(PoisonError::new(&mut self.value)),
@@ -81,8 +85,12 @@ impl<T: Clone> CachedRwLock<T> {
     /// Acquires a write lock on the shared data.
     pub(crate) fn write(&mut self) -> LockResult<CachedRwLockWriteGuard<'_, T>> {
         let guard = self.shared.value.lock();
+        #[cfg(nexosim_verif)]
+        crate::verif::point(60, 0, 0);
         let epoch = self.shared.epoch.load(Ordering::Relaxed) + 1;
         self.shared.epoch.store(epoch, Ordering::Relaxed);
+        #[cfg(nexosim_verif)]
+        crate::verif::point(61, 0, 0);
 
         match guard {
             LockResult::Ok(shared) => LockResult::Ok(CachedRwLockWriteGuard { guard: shared }),
